@@ -719,6 +719,8 @@ def check_empty_slots(repo, rep, bound=7):
 
 
 def run(repo, rep):
+    from sa import resmodel
+    resmodel.install(repo, rep)
     rep.rule('R12a', 'KEYWORD-NAMES-ARE-WRITABLE: the keyword name of '
              'every visible parameter is a keyword token, not a word '
              'operator or JSON constant, and unique within its overload')
@@ -756,7 +758,7 @@ def run(repo, rep):
     uni = unimod.Universe(repo)
     n1 = check_keyword_names(repo, rep, uni)
     n2, neff = check_declared_vs_effective(repo, rep, uni)
-    check_kind_predicate(repo, rep)
+    resmodel.guarded(repo, rep, 'R12c', check_kind_predicate, repo, rep)
     check_varkw_collisions(repo, rep, uni)
     check_clone_copies_parameters(repo, rep)
     check_call_kwargs_verbatim(repo, rep)
@@ -776,6 +778,6 @@ def run(repo, rep):
              'keyed by positional index and the call\'s keyword, so a lazy '
              'parameter is handled the same whether passed positionally or '
              'by (aliased) keyword')
-    c11.check_lazy_keys(repo, rep)
+    resmodel.guarded(repo, rep, 'R11f', c11.check_lazy_keys, repo, rep)
     rep.count(keyword_parameters=n1, declared_overloads=n2,
               effective_definitions=neff, argument_list_shapes=n4)
